@@ -141,7 +141,12 @@ class C10(Spec):
         nextkey = lambda i: "first" if i == 0 else "next"
         for i in range(n):
             if i + 1 < n:
-                docs[i][nextkey(i)] = urls[i + 1]
+                ref = urls[i + 1]
+                # relative references are resolved against the id of the page that holds them
+                if rng.random() < 0.3 and urls[i].split("/")[2] == ref.split("/")[2]:
+                    docs[i]["id"] = urls[i]
+                    ref = rng.choice(["/" + ref.split("/", 3)[3], ref.rsplit("/", 1)[1], "//" + ref.split("//", 1)[1]])
+                docs[i][nextkey(i)] = ref
         last = n - 1
         if shape in ("cyclic", "empty-cycle"):
             docs[last][nextkey(last)] = urls[rng.randrange(n)] if n > 1 or shape == "cyclic" else urls[0]
